@@ -44,6 +44,21 @@ class C16(Prop):
                 bs[0] = (bs[0] & 0x3F) | (tag << 6)
                 for k in range(0, n + 4):
                     L.append("varint dec " + hx(bs[:k]))
+        # the same encodings read from a multi-chunk buffer, cut at every position (and twice)
+        for tag in range(4):
+            n = 1 << tag
+            for _ in range(30 if big else 6):
+                bs = [rng.randrange(256) for _ in range(n + 2)]
+                bs[0] = (bs[0] & 0x3F) | (tag << 6)
+                for total in (n - 1, n, n + 2):
+                    v = bs[:total]
+                    if not v:
+                        continue
+                    for c1 in range(1, len(v)):
+                        L.append("varint decm %s,%s" % (hx(v[:c1]), hx(v[c1:])))
+                        for c2 in range(c1 + 1, len(v)):
+                            L.append("varint decm %s,%s,%s" % (hx(v[:c1]), hx(v[c1:c2]), hx(v[c2:])))
+                    L.append("varint decm " + ",".join("%02x" % b for b in v))
         # values
         vals = set(range(0, 2**16 + 1))
         for p in (6, 14, 30, 62, 8, 16, 32, 63, 64):
@@ -91,6 +106,8 @@ class C16(Prop):
     def klass(self, line, impl):
         w = line.split()
         r = impl.split(" ")[0]
+        if w[0] == "varint" and w[1] == "decm":
+            return "decm/form%d/%s" % (int(w[2][:2], 16) >> 6, r)
         if w[0] == "varint" and w[1] == "dec":
             h = w[2]
             tag = "empty" if h == "-" else "form%d" % (int(h[:2], 16) >> 6)
